@@ -80,10 +80,11 @@ func c15Same(got reflect.Value, kind int, want interface{}) bool {
 	return got.Interface() == want
 }
 
-// c15Recv receives from a target of any element type, waiting at most d.
+// c15Recv receives from a target of any element type, waiting at most d.  A blocked sender is taken at once by the
+// non-blocking attempts before and after the wait, so a descheduled harness goroutine whose timer expires early cannot
+// make a pending send look absent.
 func c15Recv(target reflect.Value, d time.Duration) (reflect.Value, bool) {
-	if d <= 0 {
-		v, ok := target.TryRecv()
+	if v, ok := target.TryRecv(); ok || d <= 0 {
 		return v, ok
 	}
 	t := time.NewTimer(d)
@@ -92,7 +93,10 @@ func c15Recv(target reflect.Value, d time.Duration) (reflect.Value, bool) {
 		{Dir: reflect.SelectRecv, Chan: target},
 		{Dir: reflect.SelectRecv, Chan: reflect.ValueOf(t.C)},
 	})
-	return v, i == 0
+	if i == 0 {
+		return v, true
+	}
+	return target.TryRecv()
 }
 
 type c15Sub struct {
